@@ -57,10 +57,10 @@ def prepare(tier):
 
 
 @st.composite
-def many_case(draw):
+def many_case(draw, big=False):
     """Many isolated components under a small semantic label: the component count, not the label value,
-    decides the output dtype (counts around 2^8 and, in the thorough tier, 2^16)."""
-    counts = [1, 254, 255, 256, 257, 300, 511, 513] + ([65535, 65536, 65537] if TIER == "thorough" else [])
+    decides the output dtype (counts around 2^8 and, in a small separate search of the thorough tier, 2^16)."""
+    counts = [65535, 65536, 65537, 300] if big else [1, 254, 255, 256, 257, 300, 511, 513]
     return {
         "kind": "many",
         "n_pred": draw(st.sampled_from(counts + [0])),
@@ -89,7 +89,10 @@ def build_many(case):
 def searches(tier):
     prepare(tier)
     n = BUDGET[tier]
-    return [("maps", case_strategy(), n), ("many_components", many_case(), max(6, n // 8))]
+    out = [("maps", case_strategy(), n), ("many_components", many_case(), max(6, n // 8))]
+    if tier == "thorough":
+        out.append(("many_components_2^16", many_case(big=True), 4))  # ~5 s per case in the pure-Python model
+    return out
 
 
 def enumerations(tier):
